@@ -1,13 +1,18 @@
 """Translator for C03: the tables of txdbus/message.py that the message model is parameterised by.
 
-Runtime objects: `_headerFormat`, `DBusMessage._maxMsgLen / _protocolVersion / endian`, every message
-class's `_messageType` and `_headerAttrs`, `_mtype` (keys and classes), `_hcode`, and the alignment
-column of `marshal.dbus_types`.
-From the AST of message.py (restricted shapes; anything else is a TranslatorError, which breaks the
-table obligation and makes the pipeline widen its search):
-  * `_nextSerial = <int literal>` in the body of class DBusMessage (the runtime value moves);
-  * `_headerAttrs.append((<str>, <int>, <bool>))` in `DBusMessage._marshal`   -> unixFdsEntry
-  * `if path == <str literal>: raise ...` in `MethodCallMessage.__init__`        -> reservedPath
+Runtime objects: `_headerFormat`, `_protocolVersion`, `endian`, every message class's `_messageType`,
+`_headerAttrs` (any sequence of triples) and `_maxMsgLen` (per class: a subclass value is honoured by
+`_marshal`), `_mtype` (keys and classes), `_hcode`.
+Alignments: PROBED from the `marshal.pad` dict that the codec actually calls (`pad[c](n)` for n < 64; also
+`pad['header']`) and cross-checked with the alignment column of `marshal.dbus_types`.
+Three values that are code rather than tables are taken from the AST when it has the familiar shape and
+otherwise found by PROBING the running code (a harmless refactoring must not break the translator):
+  * the first serial: `_nextSerial = <int literal>` in class DBusMessage, else the value in a fresh interpreter;
+  * unixFdsEntry: `_headerAttrs.append((<str>, <int>, <bool>))` in `_marshal`, else the extra header a method call
+    with one descriptor carries;
+  * reservedPath: `if path == <str literal>: raise` in `MethodCallMessage.__init__`, else the one string constant of
+    the module that is a valid object path and that `MethodCallMessage` refuses.
+Anything that still cannot be determined is a TranslatorError (breaks the table obligation).
 """
 import ast
 import inspect
@@ -96,11 +101,11 @@ def tables(message, marshal):
         k = getattr(message, pyname, None)
         if k is None:
             raise TranslatorError('class %s missing' % pyname)
-        if not isinstance(k._headerAttrs, list):
-            raise TranslatorError('%s._headerAttrs is not a list' % pyname)
+        if not isinstance(k._headerAttrs, (list, tuple)):
+            raise TranslatorError('%s._headerAttrs is not a sequence' % pyname)
         t['classes'].append((pyname, lean, nat(k._messageType, pyname + '._messageType'),
                              [entry(tuple(e) if isinstance(e, (list, tuple)) else e, pyname + '._headerAttrs')
-                              for e in k._headerAttrs]))
+                              for e in k._headerAttrs], nat(k._maxMsgLen, pyname + '._maxMsgLen')))
         by_class[k] = lean
     # _mtype
     t['mtype'] = []
